@@ -284,9 +284,42 @@ def run_facade(case, obs=None):
     return out
 
 
+def run_subclass(tr):
+    """a facade subclass that overrides the public `blocksize` accessor (a disk formatted with protection information: 512+8):
+    the READ methods all size their buffers from the same source - one method going its own way gives a buffer that does not match"""
+    from pyscsi.pyscsi.scsi import SCSI
+
+    class ProtectedSCSI(SCSI):
+        @property
+        def blocksize(self):
+            return self._blocksize + 8
+
+        @blocksize.setter
+        def blocksize(self, v):
+            self._blocksize = v
+    out = []
+    rig = harness.Rig(tr, 0x00)
+    try:
+        s = ProtectedSCSI(rig.dev, 512)
+        sizes = {}
+        for m in ("read10", "read12", "read16"):
+            for tl in (1, 3):
+                try:
+                    sizes[(m, tl)] = len(getattr(s, m)(0, tl).datain) // tl
+                except Exception as e:   # noqa: BLE001
+                    sizes[(m, tl)] = "raised %s" % type(e).__name__
+        if len(set(sizes.values())) != 1:
+            out.append(("subclass/blocksize_source", "a facade subclass overriding `blocksize` (512+8) over %s: bytes per block of the data-in buffers %r - the READ methods do not agree" % (tr, sizes)))
+    finally:
+        rig.close()
+    return out
+
+
 def run_two(case, obs=None):
     """two facades with different block sizes alive at once: each builds its READ / WRITE commands from its own"""
     _, tr, m, order = case
+    if order == 3:
+        return run_subclass(tr)
     out = []
     ra, rb = harness.Rig(tr, 0x00), harness.Rig(tr, 0x00, blocksize=4096)
     try:
@@ -325,7 +358,7 @@ def run_partition(part, tier, seed):
     acc = Acc(seed)
     if part[0] == "two":
         for m in ("read10", "read12", "read16", "write10", "write12", "write16"):
-            for order in (0, 1, 2):
+            for order in (0, 1, 2) + ((3,) if m == "read10" else ()):
                 case = ["two", part[1], m, order]
                 acc.case(case, nontrivial=True, key=repr(case))
                 try:
